@@ -66,6 +66,7 @@ def part_a():
     ok &= mc_expect("MCCommWin.tla", "MC_CommWin_pinned_err.cfg", "commwin_F17_bit_kept_on_error", False)
     ok &= mc_expect("MCCommWin.tla", "MC_CommWin_a.cfg", "commwin_repaired", True)
     ok &= mc_expect("MCShQuote.tla", "MC_ShQuote.cfg", "shquote_F10_empty_argument", False, FixEmpty="FALSE")
+    ok &= mc_expect("MCWinEnv.tla", "MC_WinEnv_pinned.cfg", "winenv_F20_nul_not_refused", False)
     return ok
 
 
